@@ -27,7 +27,9 @@ fi
 [ -x "$VCHECK" ] || { echo "vcheck not built" >&2; exit 2; }
 WORK="$FZ/run/$ID"; rm -rf "$WORK"; mkdir -p "$WORK"
 "$VCHECK" "$ID" groups 2>/dev/null | awk '$1=="GROUP" && $3=="random" {print $2, $5}' | sed 's/tape_len=//' > "$WORK/groups.txt"
-if [ -n "${VERIF_FUZZ_SKIP:-}" ]; then grep -Ev "$VERIF_FUZZ_SKIP" "$WORK/groups.txt" > "$WORK/g2.txt"; mv "$WORK/g2.txt" "$WORK/groups.txt"; fi
+# groups whose single cases are very large are left to the seeded driver
+SKIP="${VERIF_FUZZ_SKIP:-^(large|very-large) }"
+grep -Ev "$SKIP" "$WORK/groups.txt" > "$WORK/g2.txt"; mv "$WORK/g2.txt" "$WORK/groups.txt"
 [ -s "$WORK/groups.txt" ] || { echo "no random groups for $ID"; exit 0; }
 
 run_group() {
